@@ -35,7 +35,7 @@ class FakeReactor(task.Clock):
 
 class AppCli(_Rec, vcommand.VNCDoCLIClient):
     def _fill(self, x, y, w, h, color):
-        super(_Rec, self).fillRectangle(x, y, w, h, color)
+        return super(_Rec, self).fillRectangle(x, y, w, h, color)
 
     def _captureSave(self, data, fp, *args, **kw):
         had_screen = self.screen is not None
